@@ -265,17 +265,52 @@ def observe(acc, w, build, cat, name, code, extra=None, job_extra=None, timeout=
     return cls, pay
 
 
+REC = "local f(n) = if n == 0 then 0 else 1 + f(n - 1); f(%d)"
+
+
+D0 = {}
+
+
+def calibrate(binary):
+    """deepest recursion that succeeds on a fresh thread of this build at the default frame limit"""
+    if binary not in D0:
+        w = runner.Worker(binary, timeout=30)
+        D0[binary] = None
+        # ascending, so that the only evaluation that is cut off by the limit is the last one (a thread that
+        # has already seen an overflow is exactly what the sentinel is about)
+        for d in range(150, 260):
+            cls, pay = outcome(w.call({"op": "eval", "code": REC % d}))
+            if cls != "ok":
+                break
+            D0[binary] = d
+        w.close()
+    return D0[binary]
+
+
 def sentinel(acc, w, build, after):
-    """after any error the same thread evaluates further programs normally"""
-    for code, want in (("1 + 1", 2.0),
-                       ("local f(n) = if n == 0 then 0 else 1 + f(n - 1); f(180)", 180.0)):
+    """after any error the same thread evaluates further programs normally; in particular the number of
+    frames available is exactly what a fresh thread has: the deepest recursion that succeeded there still
+    succeeds and one frame more is still cut off"""
+    d0 = D0.get(w.binary)
+    probes = [("1 + 1", 2.0)]
+    if d0 is not None:
+        probes += [(REC % d0, float(d0)), (REC % (d0 + 1), "StackOverflow")]
+    else:
+        probes += [(REC % 180, 180.0)]
+    for code, want in probes:
         acc.inc("evaluations")
         acc.inc("sentinels")
         cls, pay = outcome(w.call({"op": "eval", "code": code}))
-        good = cls == "ok" and strict_json(pay) == want
+        if isinstance(want, str):
+            good = cls == "err" and pay["kind"] == want
+        else:
+            good = cls == "ok" and strict_json(pay) == want
         if not good and cls not in ("timeout", "harness"):
-            acc.violation({"oracle": "history", "sentinel": code[:12], "after": after.get("category")},
-                          {"after": after, "sentinel": code, "observed": [cls, pay], "build": build})
+            acc.violation({"oracle": "history", "sentinel": "frame-budget-changed" if "f(n)" in code else code[:12], "after": after.get("category")},
+                          {"after": after, "sentinel": code, "expected": want, "observed": [cls, pay], "build": build, "fresh_thread_depth": d0})
+            # restart so that one leak is reported once, not after every later error
+            w.close()
+            break
 
 
 def shard(idx, n, tier, seed, builds):
@@ -287,6 +322,7 @@ def shard(idx, n, tier, seed, builds):
         try:
             funcs = std_functions(w)
             acc.n["std_functions"] = len(funcs)
+            acc.add("fresh_thread_depth", "%s=%s" % (build, calibrate(binary)))
             cases = sweep_cases(funcs, tier, runner.rng_for(seed, "c04-sweep"))
             mine = runner.chunks(cases, idx, n)
             nerr = 0
